@@ -35,7 +35,8 @@ LogMp == [k \in LogConn |-> MgrPeer(Ev.mp[k])]
 Fr(f) == IF f.t = "Bitfield" THEN [t |-> "Bitfield", s |-> ToSet(f.s)] ELSE f
 LogSent == [i \in 1..Len(Ev.sent) |-> Fr(Ev.sent[i])]
 
-MgrMatches == st' = LogSt /\ DOMAIN mp' = LogConn /\ mp' = LogMp
+LogMg == [r |-> Ev.mg, cands |-> Ev.cands, ext |-> Ev.ext]
+MgrMatches == st' = LogSt /\ DOMAIN mp' = LogConn /\ mp' = LogMp /\ mg' = LogMg
 HMatches(k) == HViewOf(h', k) = LogH        \* (only h is primed: k comes from the current line)
 SentMatches(k) == IF LogSent = <<>> THEN sent'.f = <<>> ELSE sent' = [k |-> k, f |-> LogSent]
 
@@ -46,7 +47,7 @@ TInit == Init /\ l = 1 /\ TLCSet(1, 0)
 TReset == /\ Ev.e = "Reset"
           /\ st' = [p \in Pieces |-> [k |-> "M", n |-> 0]]
           /\ mp' = [k \in {} |-> NewPeer]
-          /\ round' = 0 /\ mq' = <<>>
+          /\ mg' = [r |-> 0, cands |-> 0, ext |-> FALSE] /\ mq' = <<>>
           /\ h' = [k \in Peers |-> DeadH]
           /\ bq' = [k \in Peers |-> <<>>]
           /\ stored' = {}
@@ -145,7 +146,15 @@ TExit ==
 TRotate == /\ Ev.e = "Rotate"
            /\ WithDue(MRotate(Ev.order, ToSet(Ev.newopt)))
            /\ MgrMatches
-           /\ round' = Ev.round
+
+\* tracker reply / follow-up of a kill: the manager's candidate list and the extractor flag
+TTracker == /\ Ev.e = "TrackerPeers"
+            /\ WithDue(MTrackerPeers(Ev.n))
+            /\ MgrMatches
+TSettle == /\ Ev.e = "Settle"
+           /\ WithDue(IF Ev.kill THEN (MAfterKill /\ mg'.cands = Ev.cands) \/ (mg.cands > Ev.cands /\ ~AllHave /\ MDropCands(mg.cands - Ev.cands))
+                       ELSE MDropCands(mg.cands - Ev.cands))
+           /\ MgrMatches
 
 \* what is on disk: exactly the stored pieces, all of them good
 TDisk == /\ Ev.e = "Disk"
@@ -156,11 +165,11 @@ TDisk == /\ Ev.e = "Disk"
 \* a task or the manager panicked
 TPanic == /\ Ev.e = "Panic"
           /\ panic' = TRUE
-          /\ UNCHANGED <<st, mp, round, mq, h, bq, stored, sent, wire, due, ann>>
+          /\ UNCHANGED <<st, mp, mg, mq, h, bq, stored, sent, wire, due, ann>>
 
 TNext == /\ l <= Len(Rec)
          /\ l' = l + 1
-         /\ (TReset \/ TConnect \/ TCall \/ TMgr \/ TEnd \/ TExit \/ TRotate \/ TDisk \/ TPanic)
+         /\ (TReset \/ TConnect \/ TCall \/ TMgr \/ TEnd \/ TExit \/ TRotate \/ TTracker \/ TSettle \/ TDisk \/ TPanic)
          /\ TLCSet(1, l)
 TSpec == TInit /\ [][TNext]_tvars
 
